@@ -120,7 +120,7 @@ func c08Rules(tier string) []Rule {
 			if f == nil {
 				return []core.Result{core.Bad(id, "PROV", "PROV:"+qrec+":rollback-nodes", "", "the candidate→StateNode mapping of the rollback cannot be resolved")}
 			}
-			if len(w.Sites(f, regexp.MustCompile(`^return \$0\.StateNode$`), false)) == 0 {
+			if len(w.SitesOr(f, regexp.MustCompile(`^return \$0\.StateNode$`), false, 1)) == 0 {
 				return []core.Result{core.Bad(id, "PROV", "PROV:"+qrec+":rollback-nodes", w.Pos(f.Pos()), "the rollback no longer targets each candidate's own StateNode")}
 			}
 			return []core.Result{core.OK(id, "PROV", "PROV:"+qrec+":rollback-nodes", 1, "rollback targets the candidates' state nodes")}
